@@ -33,6 +33,7 @@ type CaseC10 struct {
 	Gated   bool       `json:"gated"`
 	Release []int      `json:"release,omitempty"`
 	ReRoute string     `json:"reroute"`
+	Restart bool       `json:"restart,omitempty"` // afterwards the replica restarts and loads its log: nothing it refused may stand in the way
 }
 
 func genC10(rt *rapid.T) CaseC10 {
@@ -40,11 +41,12 @@ func genC10(rt *rapid.T) CaseC10 {
 		Type:    rapid.SampledFrom([]string{"eventlog", "keyvalue", "docstore"}).Draw(rt, "type"),
 		Authors: rapid.IntRange(1, 3).Draw(rt, "authors"),
 		ReRoute: rapid.SampledFrom([]string{"sync", "topic", "direct"}).Draw(rt, "reroute"),
+		Restart: rapid.Bool().Draw(rt, "restart"),
 	}
 	c.Hist = genHist(rt, c.Authors, 8)
 	na := rapid.IntRange(1, 3).Draw(rt, "nanns")
 	for i := 0; i < na; i++ {
-		a := AnnC10{Route: rapid.SampledFrom([]string{"sync", "topic", "direct"}).Draw(rt, "route")}
+		a := AnnC10{Route: rapid.SampledFrom([]string{"sync", "sync", "topic", "topic", "direct", "direct", "loadmore"}).Draw(rt, "route")}
 		n := rapid.IntRange(1, 4).Draw(rt, "nitems")
 		for j := 0; j < n; j++ {
 			it := ItemC10{Kind: rapid.SampledFrom([]string{"valid", "valid", "nonwriter", "badsig", "sibling", "wronghash"}).Draw(rt, "kind")}
@@ -241,6 +243,19 @@ func execC10(c CaseC10) *Outcome {
 	}
 	if err := env.victimClean(); err != nil {
 		return fail("after mixed announcements %s: %v", annSummary(c.Anns), err)
+	}
+	if c.Restart {
+		if c.Gated {
+			env.cl.W.Peers[env.V].SetGate(false)
+		}
+		if err := env.victimRestartClean(ctx); err != nil {
+			if err == world.ErrInconclusive {
+				o.Inconclusive = true
+				return o
+			}
+			return fail("after mixed announcements %s: %v", annSummary(c.Anns), err)
+		}
+		o.Labels = append(o.Labels, "restart-after")
 	}
 	o.NonTrivial = rejectedBeforeValid && fetchedRejected
 	if rejectedBeforeValid {
